@@ -85,7 +85,8 @@ def _gen_hand(rng, budget, tier):
         enc = "/".join(";".join(",".join(hexs(l.encode()) for l in iv) if iv else "-" for iv in sv) for sv in servers)
         q = query(rng) + ("" if fmt == "default" else " logformat " + fmt)
         # one case in six runs the real aggregator goroutines (Start / aggregateAndSerialize / interim Serialize) on the server side
-        yield f"c05.agg {hexs(q.encode())} {fmt} {enc}" + (" real" if rng.random() < 0.17 else "")
+        how = rng.random()
+        yield f"c05.agg {hexs(q.encode())} {fmt} {enc}" + (" real" if how < 0.17 else "")
 
 
 from props import c15 as _c15
@@ -155,6 +156,17 @@ def gen(rng, budget, tier):
     yield from _gen_without_ordered(rng, budget, tier)
     # added last: earlier streams keep their cases (see DESIGN, RNG drift)
     yield from _gen_ordered(rng, 150 if tier == "quick" else 5000)
+    # the partial results over the wire: framed by the real server handler into one reused read buffer of k bytes,
+    # reassembled by the real client mapreduce handler
+    import random
+    sub = random.Random(rng.getrandbits(32))
+    n = 0
+    for c in _gen_hand(sub, 4000, tier):
+        if len(c.split(" ")) == 4 and c.split(" ")[3] != "-":
+            yield c + f" wire{sub.choice([1, 7, 16, 33, 64, 4096])}"
+            n += 1
+            if n >= (150 if tier == "quick" else 5000):
+                break
 
 
 from props import gen_tie as _gt
